@@ -459,6 +459,14 @@ READS = [
     ("ds_remove_nothing_free_reads", lambda g, w: (g.get_context(G1) == g.get_context(G1), g.get_context(G1) == g.get_context(GRAPH_POOL[2]), len(g.get_context(URIRef("urn:nowhere"))))),
     ("ds_foreign_triples_choices", lambda g, w: list(g.triples_choices(([A, C_], Q, None), context=_foreign(g, w)))),
     ("ds_foreign_triples_path", lambda g, w: list(g.triples((None, Q * "*", None), context=_foreign(g, w)))),
+    # --- GRAPH <iri> naming no graph of the dataset (must not leave an empty graph behind), bound ?g, nested
+    ("q_graph_unknown_select", query("SELECT ?s WHERE { GRAPH <urn:nowhere> { ?s ?p ?o } }")),
+    ("q_graph_unknown_ask", query("ASK { GRAPH <urn:nowhere:2> { ?s ?p ?o } }")),
+    ("q_graph_unknown_optional", query("SELECT ?s ?x WHERE { ?s ?p ?o OPTIONAL { GRAPH <urn:nowhere:3> { ?s ?q ?x } } }")),
+    ("q_graph_unknown_union", query("SELECT ?s WHERE { { GRAPH <urn:g:5> { ?s ?p ?o } } UNION { GRAPH <urn:g:2> { ?s ?p ?o } } UNION { ?s ?p ?o } }")),
+    ("q_graph_unknown_construct", query("CONSTRUCT { ?s <http://e/r> ?o } WHERE { GRAPH <urn:nowhere:4> { ?s ?p ?o } }")),
+    ("q_graph_bound_var", query("SELECT ?g ?s WHERE { VALUES ?g { <urn:nowhere:5> <urn:g:1> <urn:g:2> } GRAPH ?g { ?s ?p ?o } }")),
+    ("q_graph_exists", query("SELECT ?s WHERE { ?s ?p ?o FILTER EXISTS { GRAPH <urn:nowhere:6> { ?s ?q ?z } } }")),
     # --- dataset clauses that DEREFERENCE a document (file:// under build/), SPARQL_LOAD_GRAPHS at its default
     ("q_from_file_select", query("SELECT ?s ?p ?o FROM <%s> WHERE { ?s ?p ?o }" % F_TTL)),
     ("q_from_file_nt_select", query("SELECT ?s ?o FROM <%s> WHERE { ?s <http://e/p> ?o }" % F_NT)),
@@ -610,7 +618,7 @@ class C13(Suite):
         rng.shuffle(build)
         reads = []
         names = [n for n, _ in READS]
-        for _ in range(rng.choice([4, 6, 8, 10])):
+        for _ in range(rng.choice([8, 10, 12, 16])):
             n = rng.choice(names)
             if n in DS_ONLY or rng.random() < 0.55:
                 tgt = "ds"
